@@ -9,6 +9,7 @@ def run(ctx):
     bridge.warm_up()
     quick = ctx.tier == "quick"
     editcheck.run_histories(ctx, ORACLES, 4000 if quick else 100000)
+    editcheck.run_histories(ctx, ORACLES, 60 if quick else 3000, tag="big", fft="big")
     editcheck.run_workloads(ctx, ORACLES, 160 if quick else 5000)
     ctx.cov["rule"] = ("seeded edit histories in the samplers' grammar with persistence faults; after every applied operation the live tree "
                        "(and its un-restored twin) must satisfy the well-formedness predicate (one root, in-degree 1, reachability, unique "
